@@ -103,8 +103,36 @@ def err_handling(body, call, _fate=None):
             return False
         partial = None
         for e in fate.err_arm_blocks:
-            okp, off = body.must_pass(e, handles)
-            if not okp:
+            # other Results whose state is known at the Err arm (a dominating test of them took one edge): resolve their
+            # later tests the same way, so that infeasible paths (`if let Err(e) = &r { .. } r?`) are not explored
+            known = {}
+            for oc in body.calls():
+                if oc is call or not is_result_ty(oc.dty):
+                    continue
+                ot = result_tests(body, oc)
+                st_ = None
+                for sw_bb, t_ in ot.items():
+                    if body.dominates(t_['err'], e) and not body.dominates(t_['ok'], e):
+                        st_ = 'err'
+                    elif body.dominates(t_['ok'], e) and not body.dominates(t_['err'], e):
+                        st_ = 'ok'
+                if st_:
+                    for sw_bb, t_ in ot.items():
+                        known[sw_bb] = t_[st_]
+            rets = set(body.return_blocks())
+            seen_, stack_, off = set(), [e], None
+            while stack_:
+                x = stack_.pop()
+                if x in seen_:
+                    continue
+                seen_.add(x)
+                if handles(x):
+                    continue
+                if x in rets:
+                    off = x
+                    break
+                stack_.extend([known[x]] if x in known else body.succs(x))
+            if off is not None:
                 partial = off
         if fate.err_arm_blocks and partial is not None and ('LOGGED' in k or any('Err' in return_variants_from(body, e) for e in fate.err_arm_blocks)):
             return 'HANDLED-ARM', 'on some path from the Err arm (return at bb%s, line %s) the error is neither logged nor returned' % (partial, body.blocks[partial]['term']['line'])
